@@ -118,6 +118,51 @@ func mkFrame(r *rand.Rand, v int, signed bool, plen int) FrameJ {
 	return j
 }
 
+// cmdC01Streams: many frames written one after the other by one real frame.Writer and read back from the resulting
+// stream by one real frame.Reader under several transport chunkings; every returned frame is inspected only after the
+// whole stream has been read (STREAM records, judged by the reader monitor).
+func cmdC01Streams(o opts) {
+	rec := newRec(o.out)
+	r := rand.New(rand.NewSource(o.seed))
+	em := &streamEmitter{rec: rec}
+	n := 12
+	if o.tier == "thorough" {
+		n = 150
+	}
+	for s := 0; s < n; s++ {
+		rw := &recWriter{}
+		w := &frame.Writer{ByteWriter: rw}
+		if err := w.Initialize(); err != nil {
+			fatal("writer init: %v", err)
+		}
+		cnt := 3 + r.Intn(10)
+		mode := s % 3 // all signed | mixed | long payloads
+		for i := 0; i < cnt; i++ {
+			v, signed := 2, true
+			if mode == 1 {
+				v, signed = 1+r.Intn(2), r.Intn(2) == 0
+			}
+			plen := r.Intn(40)
+			if mode == 2 || r.Intn(5) == 0 {
+				plen = 200 + r.Intn(56)
+			}
+			j := mkFrame(r, v, signed && v == 2, plen)
+			func() {
+				defer func() { recover() }()
+				w.Write(j.toGo()) //nolint:errcheck
+			}()
+		}
+		data := append([]byte{}, rw.buf.Bytes()...)
+		g := em.group()
+		for _, sc := range [][]int{nil, {1}, {7}, {64, 3}, {1 + r.Intn(300)}} {
+			em.put(g, data, -1, "eof", sc, false, streamCfg{}, true, "written_stream")
+		}
+	}
+	rec.Close()
+}
+
+func init() { cmds["c01s"] = cmdC01Streams }
+
 func cmdC01(o opts) {
 	rec := newRec(o.out)
 	r := rand.New(rand.NewSource(o.seed))
